@@ -117,14 +117,23 @@ func (s *JSONDB) newWriter(dagFile string, t time.Time, requestID string) (*writ
 
 func (s *JSONDB) ReadStatusRecent(dagFile string, n int) []*model.StatusFile {
 	var ret []*model.StatusFile
-	files := s.latest(s.globPattern(dagFile), n)
+	// Walk all files newest first: a file without a complete status (run
+	// just opened, or recorder killed) and the second copy of a run whose
+	// compaction was interrupted must not use up one of the n places.
+	files := s.latest(s.globPattern(dagFile), -1)
+	seen := map[string]bool{}
 	for _, file := range files {
+		if len(ret) >= n {
+			break
+		}
+		file := file
 		status, err := s.cache.LoadLatest(file, func() (*model.Status, error) {
 			return ParseFile(file)
 		})
-		if err != nil {
+		if err != nil || seen[status.RequestID] {
 			continue
 		}
+		seen[status.RequestID] = true
 		ret = append(ret, &model.StatusFile{
 			File:   file,
 			Status: status,
@@ -377,7 +386,7 @@ func filterLatest(files []string, n int) []string {
 	sort.Slice(files, func(i, j int) bool {
 		return timestamp(files[i]) > timestamp(files[j])
 	})
-	if n > len(files) {
+	if n < 0 || n > len(files) {
 		n = len(files)
 	}
 	return files[:n]
